@@ -73,6 +73,7 @@ func main() {
 		selftest = flag.String("selftest", "", "determinism: print event hashes of worlds to this file")
 	)
 	flag.Parse()
+	warmup()
 
 	if *replay != "" {
 		os.Exit(doReplay(*replay))
@@ -132,6 +133,9 @@ func main() {
 			st.Samples = append(st.Samples, b)
 		}
 		if v != nil && len(res.Found) < *maxF {
+			if len(info.Sched) > 0 && len(w.Sched) == 0 {
+				w.Sched = info.Sched
+			}
 			res.Found = append(res.Found, Found{World: w, Violation: v})
 		}
 		res.Done++
